@@ -86,7 +86,7 @@ MODRED_NP = {'nanmean': np.mean, 'nansum': np.sum, 'nanmin': np.min,
              'nanmax': np.max, 'nanstd': np.std, 'nanvar': np.var,
              'nanmedian': np.median, 'nanprod': np.prod}
 FOPTS = dict(max_len=5, max_dims=5, max_vars=5, attrs=True, masked=True,
-             char=False, vrange=100)
+             char=False, vrange=100, fills=[-999, -9999, -1, 99, 0, 0])
 
 
 # ------------------------------------------------------------------ strategy
